@@ -404,7 +404,16 @@ def DEGREES(number):
 @dispatcher.register_for('PRODUCT')
 def PRODUCT(*args):
     # all items first, as in SUM
-    return reduce(operator.mul, list(utils.inumbers(args)))
+    result = None
+    for number in list(utils.inumbers(args)):
+        result = number if result is None else result * number
+        if isinstance(result, int) and result.bit_length() > utils.MAX_WHOLE_BITS:
+            # as under the * operator (see utils.MAX_WHOLE_BITS): a column of nine-digit numbers
+            # is beyond every bound after a few thousand cells, and multiplying on takes for ever
+            return error.NUM
+    if result is None:
+        raise TypeError('PRODUCT of no numbers')
+    return result
 
 
 @dispatcher.register_for('ODD')
